@@ -71,9 +71,11 @@ int main(int argc, char **argv)
     Dim d{std::round(*genReal(-5, 5) * 4) / 4, std::vector<double>{0.1, 0.25, 0.5, 1.0}[*genInt(0, 3)], *genInt(2, 30), *genInt(0, 1) == 1};
     Setup s = make({d});
     std::vector<double> mean(d.n);
+    bool unsampled = false;
     for (int i = 0; i < d.n; i++) {
-      int c = *genInt(1, 6);
-      mean[i] = *genReal(-5, 5);
+      int c = *genInt(0, 6);
+      mean[i] = (c == 0) ? 0.0 : *genReal(-5, 5);      // a bin never visited holds no gradient
+      if (c == 0) unsampled = true;
       std::vector<int> ix{i};
       for (int k = 0; k < c; k++) { double f = -mean[i]; s.grad->acc_force(ix, &f); }
     }
@@ -93,6 +95,7 @@ int main(int argc, char **argv)
     if (d.periodic) RC_ASSERT(std::fabs(sum) <= 1e-10 * d.n);
     CNT.hit("oned.cases");
     CNT.hit(d.periodic ? "oned.periodic" : "oned.open");
+    if (d.periodic && unsampled) CNT.hit("oned.periodic_unsampled");
     CNT.hit("oned.nontrivial");
   });
 
